@@ -32,7 +32,7 @@ def main():
                 open(p, 'w').write(s.replace(e['old'], e['new']))
             for prop in m['props']:
                 t0 = time.time()
-                r = sh(f"{V}/check {prop} quick", cwd=V)
+                r = sh(f"VERIF_EVIDENCE_DIR=/tmp/verif-selftest-evidence {V}/check {prop} quick", cwd=V)
                 viol = 'VIOLATION property=' + prop in r.stdout
                 want = not m.get('harmless', False)
                 ok = (viol == want) and r.returncode == (1 if want else 0)
